@@ -41,6 +41,9 @@ Spec2 == Init2 /\ [][Next2]_vars2
 Refines2 == [][S!IntentStep(xf, items, last', items')]_vars2
 \* what the statement leaves open, shown reachable (expected to be VIOLATED in the sensitivity sense: a witness exists)
 NoLoneStale == \A i \in DOMAIN items : Cardinality(S!GroupOf(xf, items, i)) = 1 => items[i].s = S!Useful(items[i].o)
+\* every put-back transition, for replay into the implementation
+EmitBack == (Emit /\ "re" \in DOMAIN last' /\ spare # <<>> /\ spare' = <<>>) =>
+               PrintT(ToJson([xf |-> xf, pre |-> items, spare |-> spare[1], e |-> last', post |-> items']))
 View2 == <<[i \in DOMAIN items |-> <<items[i].o, items[i].s, items[i].v>>], xf,
            [i \in DOMAIN spare |-> <<spare[i].o, spare[i].s, spare[i].v>>]>>
 =============================================================================
